@@ -6,8 +6,8 @@ COMP = Component(
     tiers={
         'quick': dict(design_cfg='LifecycleMC_small.cfg', sim_num=2400, sim_depth=50, seeds_per_behaviour=1,
                       rnd_num=2400, rnd_len=22, design_timeout=900),
-        'thorough': dict(design_cfg='LifecycleMC_thorough.cfg', sim_num=32000, sim_depth=60, seeds_per_behaviour=1,
-                         rnd_num=40000, rnd_len=40, design_timeout=3000),
+        'thorough': dict(design_cfg='LifecycleMC_thorough.cfg', sim_num=16000, sim_depth=60, seeds_per_behaviour=1,
+                         rnd_num=20000, rnd_len=40, design_timeout=3000),
     },
     rule='design: TLC exhaustive over LifecycleMC within the cfg bounds (system creations, asset creations before the first run, '
          'between runs and from inside events, simulate calls on current and superseded systems, look-ups with all filter '
